@@ -470,7 +470,7 @@ class QH(object):
         self.queue._check_ready = check_ready
         orig_add = self.queue._add_queued
 
-        def add_queued(entry):
+        def add_queued(entry, *a, **kw):
             caller = sys._getframe(1).f_code.co_name
             if caller in ('_load_all', '_wait_store'):
                 ts, rid = entry
@@ -478,7 +478,7 @@ class QH(object):
                 if mid is None:
                     mid = h.foreign_id(rid)
                 h.emit((9, int(ts), mid))
-            return orig_add(entry)
+            return orig_add(entry, *a, **kw)
         self.queue._add_queued = add_queued
         orig_imap = self.queue._pool_imap
 
@@ -555,7 +555,14 @@ class QH(object):
             self._redis_time = None
 
     def rnum(self, r):
-        return int(r.split('@')[0][1:])
+        # recipient numbers >= 100 are case twins: number 100+n is 'Rn@example.com', which differs from
+        # number n ('rn@example.com') only in the case of the local part - a different mailbox
+        local = r.split('@')[0]
+        return int(local[1:]) + (100 if local[0] == 'R' else 0)
+
+    @staticmethod
+    def addr(n):
+        return ('R%d@example.com' % (n - 100)) if n >= 100 else ('r%d@example.com' % n)
 
     def new_id(self, rid):
         mid = len([k for k in self.ids.values() if k < 1000])
@@ -655,7 +662,7 @@ class QH(object):
         self.settle()
 
     def act_enqueue(self, sender, rcpts):
-        env = Envelope(sender, ['r%d@example.com' % r for r in rcpts])
+        env = Envelope(sender, [self.addr(r) for r in rcpts])
         env.parse(b'From: sender@example.com\r\nSubject: queue harness\r\n\r\nbody\r\n')
 
         def run():
@@ -881,7 +888,11 @@ class Run(object):
             sender = self.pick(['s@example.com', 's@example.com', ''])
             base = self.msgs * 6
             self.msgs += 1
-            h.act_enqueue(sender, [base + j for j in range(n)])
+            rc = [base + j for j in range(n)]
+            if self.cfg.get('case_twins') and n >= 2:
+                # the second recipient is the first one's case twin (Kim@ / kim@): two mailboxes
+                rc[1] = rc[0] + 100
+            h.act_enqueue(sender, rc)
             return ('enqueue', sender, n)
         if a[0] == 'advance':
             cands = [1, 5]
@@ -1108,7 +1119,7 @@ def replay_run(ctx, case):
         if c['schedule'] == 'scripted-restart':
             scripted_restart(e, props, c.get('backend', 'dict'))
         elif c['schedule'] == 'scripted-rounds':
-            scripted_rounds(e, props, c.get('backend', 'dict'))
+            scripted_rounds(e, props, c.get('backend', 'dict'), tuple(c.get('rcpts', (0, 1, 2, 3))))
         elif c['schedule'] == 'bounded-pools':
             bounded_pool_scenario(e)
         elif c['schedule'] == 'bounded-store-unbounded-relay':
@@ -1166,6 +1177,25 @@ def _pool_obs(h):
     return (q.store_pool.free_count(), q.relay_pool.free_count())
 
 
+def _directed(fn):
+    """a directed scenario scripts the harness against the expected behaviour of the real queue; when
+    the code under test behaves so differently that the script cannot proceed (an expected gate never
+    appears), that is a broken correspondence with the schedule as its description, not a harness crash"""
+    import functools
+
+    @functools.wraps(fn)
+    def run(ctx, *a, **kw):
+        try:
+            return fn(ctx, *a, **kw)
+        except (IndexError, KeyError) as exc:
+            import traceback as _tb
+            ctx.mismatch('directed-scenario-cannot-proceed', dict(scenario=fn.__name__, args=[repr(x) for x in a]),
+                         'the real queue did not reach the state the scenario expects: %s\n%s' % (exc, _tb.format_exc()[-1200:]),
+                         'the scripted schedule (see the scenario docstring) runs to its end on the model')
+    return run
+
+
+@_directed
 def bounded_pool_scenario(ctx):
     """D10 (known finding): with bounded store and relay pools a _dequeue greenlet holding the
     only store slot waits for a relay slot while the _attempt greenlet holding the only relay
@@ -1229,6 +1259,7 @@ def bounded_pool_scenario(ctx):
         h.close()
 
 
+@_directed
 def unbounded_relay_pool_scenario(ctx):
     """the same schedule with relay_pool=None (theorem C12_relay_unbounded_never_stuck): everything moves on"""
     h = QH(store_pool=2, relay_pool=None)
@@ -1256,6 +1287,7 @@ def unbounded_relay_pool_scenario(ctx):
         h.close()
 
 
+@_directed
 def bounded_store_pool_requeue_scenario(ctx):
     """store_pool=2 (one slot is _wait_store's), relay pool unbounded (theorem
     C12_relay_unbounded_never_stuck says the slot discipline cannot get stuck): while the retry
@@ -1311,6 +1343,7 @@ def bounded_store_pool_requeue_scenario(ctx):
         h.close()
 
 
+@_directed
 def bounded_store_pool_announce_scenario(ctx):
     """store_pool=2 (one slot is _wait_store's), relay pool unbounded.  While the scheduler is
     parked inside _check_ready (its _dispatch waits for a store slot), the storage announces another,
@@ -1361,19 +1394,22 @@ def bounded_store_pool_announce_scenario(ctx):
         h.close()
 
 
-def scripted_rounds(ctx, props, backend):
+@_directed
+def scripted_rounds(ctx, props, backend, rcpts=(0, 1, 2, 3)):
     """directed multi-round partial deliveries (the index patterns random schedules rarely hit):
-    [a,b,c,d]: round 1 settles a, round 2 settles c (a LARGER relative index than round 1), round 3 the rest"""
+    [a,b,c,d]: round 1 settles a, round 2 settles c (a LARGER relative index than round 1), round 3 the rest.
+    With rcpts=(100, 0, 2, 3) a is the case twin of b (R0@ / r0@): settled a, unsettled b."""
     inner, cleanup = make_backend(backend)
     h = QH(inner=inner)
-    label = dict(schedule='scripted-rounds', backend=backend)
+    label = dict(schedule='scripted-rounds', backend=backend, rcpts=list(rcpts))
+    a_, b_, c_, d_ = rcpts
     try:
         if h.pending('load'):
             h.release(h.pending('load')[0], [])
-        h.act_enqueue('s@example.com', [0, 1, 2, 3])
+        h.act_enqueue('s@example.com', [a_, b_, c_, d_])
         h.release(h.pending('write')[0])
         plan = [('ok', 'temp', 'temp', 'temp'), ('temp', 'ok', 'temp'), ('perm', 'temp'), ('ok',)]
-        expect = [[0, 1, 2, 3], [1, 2, 3], [1, 3], [3]]
+        expect = [[a_, b_, c_, d_], [b_, c_, d_], [b_, d_], [d_]]
         seen = []
         for rnd, res in enumerate(plan):
             g = h.pending('relay', 0)
@@ -1417,6 +1453,7 @@ def _real_load(ctx, props, inner, case, where):
         return None
 
 
+@_directed
 def scripted_restart(ctx, props, backend):
     """process restart over a REAL backend: phase 1 leaves three messages in storage at different
     points of their life (retry scheduled after a partial round; relay attempt in flight; crash between
@@ -1485,7 +1522,7 @@ def scripted_restart(ctx, props, backend):
         st0 = []
         for ts, rid in entries:
             env, att = inner.get(rid)
-            st0.append([idmap[rid], 1 if env.sender else 0, bytes(int(r.split('@')[0][1:]) for r in env.recipients), att, int(ts)])
+            st0.append([idmap[rid], 1 if env.sender else 0, bytes(QH.rnum(None, r) for r in env.recipients), att, int(ts)])
         st0.sort()
         nx = len(ids)
         h2 = QH(inner=inner, ids=ids, clock=clock, init=(st0, nx, clock), start=False)
